@@ -48,8 +48,25 @@ def check(run, prog, tier):
                         if v.get("id") == fl.get("id") and "init" in v and al.dominates(b2.id, b.id):
                             src = strip(v["init"])
             txt = show(src) if src else "?"
-            good_flags = src is not None and src.get("k") == "Sub" and strip(src["b"]).get("f") == "function_flags" and "runtime_index +" in show(src["i"]) \
-                and (show(strip(strip(src["b"])["b"])) in ("ob->prog", "entry->oprogp"))
+
+            def good(e, depth=0):
+                e = strip(e) if e else e
+                if not isinstance(e, dict) or depth > 3:
+                    return False
+                if e.get("k") == "Sub" and strip(e["b"]).get("f") == "function_flags" and "runtime_index +" in show(e["i"]) and show(strip(strip(e["b"])["b"])) in ("ob->prog", "entry->oprogp"):
+                    return True
+                if e.get("k") == "Mem" and e.get("rec") in CREC:
+                    # a cached copy: every store into that cache field must itself be a good flags value
+                    st = [n2 for b2, i2, n2 in al.nodes() if n2.get("k") == "Asg" and strip(n2["L"]).get("k") == "Mem" and strip(n2["L"]).get("f") == e["f"] and strip(n2["L"]).get("rec") in CREC]
+                    return bool(st) and all(good(n2["R"], depth + 1) for n2 in st)
+                if e.get("k") == "Ref" and e.get("d") == "local":
+                    for b2, i2, n2 in al.nodes():
+                        if n2.get("k") == "Decl":
+                            for v in n2.get("vars", []):
+                                if v.get("id") == e.get("id") and "init" in v:
+                                    return good(v["init"], depth + 1)
+                return False
+            good_flags = good(src)
             good_org = org.get("n") == "local_call_origin"
             ok = good_flags and good_org
             why = "function_visible(%s, %s) with flags = %s" % (show(org), show(fl), txt)
